@@ -606,6 +606,99 @@ def oracle_pipe(ck, rng):
         ck.violation(what=f"pipeline law violated: {f}", inp={"law": f, "seed": ck.seed}, key={"site": "pipe-law", "law": f}, oracle="pipeline_laws")
 
 
+def oracle_surface(ck, rng):
+    """boundary arguments and the file-based providers: radii / sigmas below one voxel, degenerate masks, argument validation,
+    from_array with non-float images, from_pdb (Angstrom x,y,z columns -> nm z,y,x, optional rotation) against from_atoms"""
+    import tempfile, os
+    from acryo import pipe
+    from scipy.spatial.transform import Rotation
+    fails = []
+
+    def expect(cond, site, what, inp=None):
+        if not cond:
+            fails.append((site, what, inp))
+
+    def raises(fn, *exc):
+        try:
+            fn()
+        except exc:
+            return True
+        except Exception:
+            return False
+        return False
+
+    try:
+        img = rng.random((9, 10, 11)) > 0.6
+        for scale in (0.5, 1.0, 2.0):
+            sub = 0.9 * scale          # a length shorter than one voxel
+            for name, conv in (("dilation", pipe.dilation), ("closing", pipe.closing)):
+                for r_ in (sub, -sub, 0.0):
+                    out = conv(r_).convert(img, scale)
+                    expect(np.array_equal(out, img), "sub-voxel", f"{name}({r_} nm) at {scale} nm/px changes the image although the radius is below one voxel", {"scale": scale})
+                big = conv(2.2 * scale).convert(img, scale); small = conv(-2.2 * scale).convert(img, scale)
+                expect(np.array_equal(big, conv(2.2).convert(img, 1.0)) and np.array_equal(small, conv(-2.2).convert(img, 1.0)), "units",
+                       f"{name}: radius and scale multiplied by {scale} give another image", {"scale": scale})
+            g0 = pipe.gaussian_smooth(0.0).convert(img, scale)
+            expect(g0.dtype == np.float32 and np.array_equal(g0, img.astype(np.float32)), "gaussian-smooth", "gaussian_smooth(0) is not the mask itself as float32", {"scale": scale})
+            for const in (np.ones_like(img), np.zeros_like(img)):
+                gc = pipe.gaussian_smooth(1.5 * scale).convert(const, scale)
+                expect(np.array_equal(gc, const.astype(np.float32)), "gaussian-smooth", "gaussian_smooth of an all-true / all-false mask is not that mask", {"scale": scale})
+            gs = pipe.gaussian_smooth(1.5 * scale).convert(img, scale)
+            expect(float(gs.min()) >= -1e-6 and float(gs.max()) <= 1 + 1e-6 and np.allclose(gs, pipe.gaussian_smooth(1.5).convert(img, 1.0), atol=1e-6), "gaussian-smooth",
+                   "gaussian_smooth leaves [0, 1] or depends on the unit of length", {"scale": scale})
+        expect(raises(lambda: pipe.gaussian_smooth(-1.0).convert(img, 1.0), ValueError), "validation", "negative sigma accepted by gaussian_smooth", {})
+        expect(raises(lambda: pipe.gaussian_smooth("x").convert(img, 1.0), ValueError), "validation", "non-numeric sigma accepted by gaussian_smooth", {})
+        expect(raises(lambda: pipe.dilation("x").convert(img, 1.0), ValueError), "validation", "non-numeric radius accepted by dilation", {})
+        vol = rng.normal(size=(8, 9, 10))
+        expect(raises(lambda: pipe.from_array(vol, original_scale=0.0)(1.0), ValueError) and raises(lambda: pipe.from_array(vol, original_scale=-1.0)(1.0), ValueError),
+               "validation", "non-positive original_scale accepted by from_array", {})
+        expect(raises(lambda: pipe.from_array(vol[0], original_scale=1.0)(1.0), ValueError), "validation", "2-D image accepted by from_array", {})
+        for dt in (np.float64, np.int16, np.float32):
+            src = (vol * 50).astype(dt)
+            same = pipe.from_array(src, original_scale=1.0)(1.0)
+            expect(np.array_equal(same, src), "from-array", f"from_array at the original scale changed a {np.dtype(dt).name} image", {})
+            res = pipe.from_array(src, original_scale=1.0)(0.5)
+            expect(res.dtype == np.float32 and res.shape == (16, 18, 20), "from-array", f"from_array({np.dtype(dt).name}) resampled to half the voxel size: dtype {res.dtype}, shape {res.shape}", {})
+            ref = pipe.from_array(src.astype(np.float32), original_scale=1.0)(0.5)
+            expect(np.allclose(res, ref, atol=1e-2 * float(np.abs(ref).max())), "from-array", "from_array of an integer / double image differs from the float32 image resampled", {})
+        expect(raises(lambda: pipe.from_atoms(np.zeros((4, 2)))(1.0), ValueError) and raises(lambda: pipe.from_atoms(np.zeros(3))(1.0), ValueError), "validation",
+               "from_atoms accepted coordinates that are not (N, 3)", {})
+        # from_pdb
+        atoms_a = rng.uniform(-20, 20, size=(30, 3)).round(3)          # x, y, z in Angstrom
+        with tempfile.TemporaryDirectory() as td:
+            fn = os.path.join(td, "m.pdb")
+            with open(fn, "w") as f_:
+                f_.write("HEADER    TEST\n")
+                for j, (x, y, z) in enumerate(atoms_a):
+                    f_.write("ATOM  %5d  CA  ALA A%4d    %8.3f%8.3f%8.3f  1.00  0.00           C\n" % (j + 1, j + 1, x, y, z))
+                f_.write("HETATM 9999  O   HOH A 999      99.000  99.000  99.000  1.00  0.00           O\nEND\n")
+            zyx_nm = atoms_a[:, ::-1].astype(np.float32) / 10
+            for scale in (0.5, 0.8):
+                got = pipe.from_pdb(fn)(scale)
+                want = pipe.from_atoms(zyx_nm)(scale)
+                expect(got.shape == want.shape and np.array_equal(got, want), "from-pdb", f"from_pdb differs from from_atoms of the ATOM records (z, y, x in nm) at {scale} nm/px",
+                       {"scale": scale})
+                expect(abs(float(got.sum()) - 30) < 1e-6, "from-pdb", f"from_pdb counts {float(got.sum())} atoms instead of the 30 ATOM records", {"scale": scale})
+                rot = Rotation.from_rotvec([0.3, -0.2, 0.9])
+                gotr = pipe.from_pdb(fn, rotation=rot)(scale)
+                wantr = pipe.from_atoms(rot.apply(zyx_nm))(scale)
+                expect(gotr.shape == wantr.shape and np.array_equal(gotr, wantr), "from-pdb", "from_pdb(rotation=) is not the image of the rotated atoms", {"scale": scale})
+            bad = os.path.join(td, "m.txt"); open(bad, "w").write("x")
+            expect(raises(lambda: pipe.from_pdb(bad)(1.0), ValueError), "validation", "from_pdb accepted a file that is not .pdb", {})
+            empty = os.path.join(td, "e.pdb"); open(empty, "w").write("HEADER\nEND\n")
+            expect(raises(lambda: pipe.from_pdb(empty)(1.0), ValueError), "validation", "from_pdb accepted a file without atoms", {})
+    except Exception as e:  # noqa
+        import traceback
+        fails.append(("raised", f"{type(e).__name__}: {e} at {traceback.format_exc().strip().splitlines()[-3].strip()}", {}))
+    ck.oracle_count("pipe_surface", 1, 1)
+    seen = set()
+    for site, what, inp in fails:
+        if site in seen:
+            continue
+        seen.add(site)
+        ck.violation(what=what, inp=inp, key={"site": "surface-" + site}, oracle="pipe_surface")
+
+
 def run(ck: common.Check):
     ck.design_ref = "DESIGN.md §6 C19"
     ck.trusted_base = TB
@@ -619,6 +712,7 @@ def run(ck: common.Check):
     corr_expr(ck, rng)
     corr_units(ck, rng)
     oracle_pipe(ck, rng)
+    oracle_surface(ck, np.random.default_rng(ck.seed + 19019))
 
 
 def replay(data):
